@@ -228,3 +228,36 @@ Proof.
   - pose proof (increasing_head_le ts t1 y Hi' Hm) as Hle.
     rewrite (Qle_bool_true t1 y Hle), orb_true_r. simpl. apply IH; auto.
 Qed.
+
+(* ------------------------------------------------------------------------------------------ *)
+(* the same for one forecast case of the public pipeline (crps_case), whenever filling left no   *)
+(* NaN (C17_fill_range01 gives that for every NaN-free forecast with two thresholds)            *)
+(* ------------------------------------------------------------------------------------------ *)
+Lemma map_tq_combine : forall (g f w : list Q), length f = length g -> length w = length g ->
+  map tq (combine (combine g f) w) = g /\ map fq (combine (combine g f) w) = f /\ map wq (combine (combine g f) w) = w.
+Proof.
+  induction g as [|a g IH]; intros [|b f] [|c w] Hf Hw; simpl in Hf, Hw; try (exfalso; congruence). repeat split.
+  apply eq_add_S in Hf. apply eq_add_S in Hw. destruct (IH f w Hf Hw) as [A [B C]].
+  cbn [combine map]. unfold tq, fq, wq in *. cbn [fst snd]. rewrite A, B, C. repeat split.
+Qed.
+
+Theorem crps_case_is_integral grid ft wt op (c : fcase) (f w : list Q) (y : Q) :
+  o_exact op = true -> grid <> [] ->
+  reformat_case grid ft wt op c = (fins f, observed_cdf_line (XFin y) grid, fins w) ->
+  length f = length grid -> length w = length grid ->
+  Cdf.increasing grid = true -> qmem y grid = true ->
+  forall t u o : Q, crps_case grid ft wt op c = (XFin t, XFin u, XFin o) ->
+  let pts := combine (combine grid f) w in
+  is_RInt (crps_integrand pts y) (Q2R (tfirst pts)) (Q2R (tlast pts)) (Q2R t) /\
+  is_RInt (under_integrand pts y) (Q2R (tfirst pts)) (Q2R (tlast pts)) (Q2R u) /\
+  is_RInt (over_integrand pts y) (Q2R (tfirst pts)) (Q2R (tlast pts)) (Q2R o).
+Proof.
+  intros Hex Hne Hre Hf Hw Hinc Hy t u o E. cbv zeta.
+  destruct (map_tq_combine grid f w Hf Hw) as [A [B C]].
+  unfold crps_case in E. rewrite Hre, Hex in E.
+  apply exact_is_integral.
+  - destruct grid as [|g0 grid]; [congruence|]. destruct f, w; simpl in Hf, Hw; try (exfalso; congruence). simpl. congruence.
+  - rewrite A. exact Hinc.
+  - rewrite A. apply on_grid_no_interior; auto.
+  - rewrite A, B, C. exact E.
+Qed.
